@@ -99,6 +99,17 @@ impl<'value, T: 'value> Stream<T> {
 
 impl<'value, T: 'value + Clone + fmt::Display> Stream<T> {
     pub(crate) fn add_value(&mut self, value: T, generation: Generation) -> ExecutionResult<()> {
+        use crate::execution_step::ExecutionError;
+        use crate::UncatchableError;
+
+        // A generation index taken from data can't be bigger than the maximal number of values,
+        // otherwise the matrix would be resized to an arbitrary size chosen by the data author.
+        if let Generation::Previous(generation_idx) | Generation::Current(generation_idx) = generation {
+            if generation_idx >= STREAM_MAX_SIZE {
+                return Err(ExecutionError::Uncatchable(UncatchableError::StreamSizeLimitExceeded));
+            }
+        }
+
         match generation {
             Generation::Previous(previous_gen) => self.previous_values.add_value_to_generation(value, previous_gen),
             Generation::Current(current_gen) => self.current_values.add_value_to_generation(value, current_gen),
